@@ -143,6 +143,9 @@ SOURCE_TIES = {
                         'users': {'C02', 'C04', 'C05', 'C07', 'C08', 'C15', 'C17'}},
     'Encoder methods': {'unit': 'SrcEnc', 'module': 'HpackVerif.Props.SrcEnc', 'audit': 'AuditSrcEnc.lean',
                         'users': {'C03', 'C19', 'C15', 'C09', 'C01'}},
+    'Encoder.encode': {'unit': 'SrcEnc', 'module': 'HpackVerif.Props.SrcEncApi', 'audit': 'AuditSrcEncApi.lean',
+                       'needs': ['_to_bytes', '_dict_to_iterable', 'Encoder.encode'],
+                       'users': {'C18', 'C01', 'C03', 'C09', 'C15'}},
     'Huffman encoder': {'unit': 'SrcHuffEnc', 'module': 'HpackVerif.Props.SrcHuffEnc', 'audit': 'AuditSrcHuffEnc.lean',
                         'users': {'C12', 'C03', 'C01'}},
     'header table': {'unit': 'SrcTable', 'module': 'HpackVerif.Props.SrcTable', 'audit': 'AuditSrcTable.lean',
@@ -171,6 +174,11 @@ def source_tie(prop):
         out['units'][what] = u
         if not rep.get('available'):
             u['status'] = 'unavailable: the translator does not cover this source (%s)' % rep.get('reason', '?')
+            continue
+        lost = [(n_, (rep.get('functions', {}).get(n_) or {}).get('unavailable', 'not emitted')) for n_ in cfg.get('needs', [])
+                if 'unavailable' in (rep.get('functions', {}).get(n_) or {'unavailable': 1})]
+        if lost:
+            u['status'] = 'unavailable: the translator does not cover this source (%s)' % '; '.join('%s: %s' % x for x in lost)
             continue
         rc, bt = sh(['lake', 'build', cfg['module']], cwd=LEAN, timeout=1800)
         if rc != 0:
@@ -307,7 +315,7 @@ def streams_for(prop, seed, tier, boost=1):
         add('huff-large', genmod.huff_large_stream(full=T))
         add('huff-copies', genmod.huff_copy_stream(G('hc')))
         add('copies', genmod.copy_stream(G('cp')))
-        add('hdec-buffer-kinds', [o.split(' #')[0] + ' #buf=' + kd for o in genmod.huff_transition_catalogue()[::7] for kd in ('mv-bytearray', 'array-B', 'mv-slice')])
+        add('hdec-buffer-kinds', [o.split(' #')[0] + ' #buf=' + kd for o in genmod.huff_transition_catalogue()[::7] for kd in ('mv-bytearray', 'array-B', 'mv-slice', 'mv-strided', 'mv-reversed')])
         if T:
             add('hdec-exhaustive', G('x').hdec_exhaustive())
     elif prop in ('C06', 'C14'):
@@ -450,6 +458,9 @@ def streams_for(prop, seed, tier, boost=1):
         add('cross-encoder-sensitive', genmod.cross_encoder_sensitive_stream())
         add('whitespace-search', genmod.whitespace_search_stream())
         add('evict-binary', genmod.evict_binary_stream())
+        if prop == 'C03':
+            add('content-catalogue', genmod.content_catalogue_stream())
+            add('length-collisions', genmod.length_collision_stream())
         ops_, groups_ = genmod.both_sensitivities_stream(G('bs'), n=6 * k)
         add('both-sensitivities', ops_)
     elif prop == 'C09':
@@ -468,6 +479,9 @@ def streams_for(prop, seed, tier, boost=1):
         add('dict-and-generators', ops_)
     elif prop in ('C01', 'C10'):
         add('conn', G('conn').conn_stream(n_conn=40 * k))
+        if prop == 'C01':
+            add('content-catalogue', genmod.content_catalogue_stream())
+            add('length-collisions', genmod.length_collision_stream())
         add('enc-failing', genmod.enc_fail_stream(G('ef'), n=10 * k))
         add('ctor-options', genmod.ctor_options_stream(G('co2')), {'nocorr': True})
         add('conn-optimized', G('conno').conn_stream(n_conn=8 * k, start_id=900), {'env': {'PYTHONOPTIMIZE': '1'}})
@@ -990,7 +1004,7 @@ def main():
             'trusted_base': [
                 'Lean 4 kernel (lake build); axioms used by the property theorems: ' + ', '.join(sorted({x for v in list(thms.values()) + list(shared.values()) for x in v})),
                 'tools/translate.py dumps the run-time tables/constants of the working tree into lean/HpackVerif/Generated (witnesses untrusted)',
-                'tools/py2lean.py + lean/HpackVerif/Src/Py.lean (source text of the integer codec / decode_huffman / HuffmanEncoder.encode / HeaderTable / Decoder / Encoder.add -> Lean; Props.Src / SrcHuff / SrcHuffEnc / SrcTable / SrcDec / SrcEnc prove it equal to the model): ' + (info.get('source_tie') or {}).get('status', 'not used by this property'),
+                'tools/py2lean.py + lean/HpackVerif/Src/Py.lean (source text of the integer codec / decode_huffman / HuffmanEncoder.encode / HeaderTable / Decoder / Encoder incl. encode -> Lean; Props.Src / SrcHuff / SrcHuffEnc / SrcTable / SrcDec / SrcEnc / SrcEncApi prove it equal to the model): ' + (info.get('source_tie') or {}).get('status', 'not used by this property'),
                 'hand-written L2 model lean/HpackVerif/Impl/* tied to the code by the correspondence streams of this run (%d operations, %d disagreements)' % (stats['ops'], len(disag)),
                 'L0 reading of RFC 7541 (lean/HpackVerif/RFC/*) and frozen Appendix A/B tables',
                 'CPython semantics of int/bytes/deque/dict as modelled (DESIGN.md 5.2)',
